@@ -9,13 +9,14 @@ From Verif Require Import Imp IncrSeq Producer C01_proof C02_Done C02_proof Done
 Import ListNotations.
 Open Scope Z_scope.
 
-(* the i-th unresolved future gets offset = base + rel_i; its own timestamp and type 0 when the
+(* the i-th unresolved future gets offset = base + rel_i (an unknown base offset, -1, stays -1: the reply to a
+   duplicate whose metadata the broker no longer retains); its own timestamp and type 0 when the
    broker reports -1 (CreateTime), else the broker's timestamp and type 1; already resolved
    futures are untouched; nothing else is emitted *)
 Theorem c02_done_coordinates : forall base bts ls fs k r,
   In (k, r) (done base bts ls fs) <->
   exists f, nth_error fs k = Some f /\ f_done f = false /\
-    r = RMeta (base + f_rel f) (if bts =? -1 then f_ts f else bts) (if bts =? -1 then 0 else 1) ls.
+    r = RMeta (if base <? 0 then -1 else base + f_rel f) (if bts =? -1 then f_ts f else bts) (if bts =? -1 then 0 else 1) ls.
 Proof. exact done_coordinates. Qed.
 Print Assumptions c02_done_coordinates.
 
@@ -32,7 +33,7 @@ Print Assumptions c02_done_is_translated.
 Theorem c02_done_coordinates_of_source : forall base bts ls fs k r,
   In (k, r) (DoneGen.done_py base bts ls fs) <->
   exists f, nth_error fs k = Some f /\ f_done f = false /\
-    r = RMeta (base + f_rel f) (if bts =? -1 then f_ts f else bts) (if bts =? -1 then 0 else 1) ls.
+    r = RMeta (if base <? 0 then -1 else base + f_rel f) (if bts =? -1 then f_ts f else bts) (if bts =? -1 then 0 else 1) ls.
 Proof. intros. rewrite done_py_eq. apply done_coordinates. Qed.
 Print Assumptions c02_done_coordinates_of_source.
 
